@@ -166,7 +166,7 @@ func (e *Engine) AnalyzeCtx(f *ssa.Function) *FuncAn {
 	// element length of a slice-of-slices parameter: at every site the argument has a known element length that is
 	// the value (or the length) of another argument of the same call, or a constant
 	for i, pi := range f.Params {
-		if !isSliceOfSeq(pi.Type()) || (f.Object() != nil && f.Object().Exported()) {
+		if !isSliceOfSeq(pi.Type()) || (f.Object() != nil && f.Object().Exported() && !internalPkg(f)) {
 			continue
 		}
 		var chosen *Lin
